@@ -6,7 +6,8 @@
 //
 // Step-level ops (add, size, wm) exercise writeBatch / partitionWriter through
 // the hooks of /repo/verif_export_writer.go; cfgd checks the defaulting of the
-// Writer options (VerifWriterEffective of verif_export_writer2.go); prr and pr drive the response
+// Writer options (VerifWriterEffective of verif_export_writer2.go); pdl and pto
+// show which timeout option limits the produce round trip; prr and pr drive the response
 // mapping of (*kafka.Client).Produce through a scripted RoundTripper; e2e runs the real kafka.Writer on
 // the fake cluster of kverif/fakert and prints the globally sequenced history;
 // f3 replays the Close / WriteMessages race.  All numbers are lowercase hex.
@@ -1725,6 +1726,221 @@ func genCfgd(r *rand.Rand, allZero bool) line {
 }
 
 // ---------------------------------------------------------------------------
+// which option feeds which deadline (ops pdl, pto)
+
+// dlRec answers through a fake cluster and records, at entry of RoundTrip, the
+// time left on the context of the first metadata and the first produce request.
+type dlRec struct {
+	inner *fakert.Fake
+	mu    sync.Mutex
+	seen  map[string]bool
+	left  map[string]string // "meta" / "produce" -> remaining time, "-" = no deadline
+}
+
+func (d *dlRec) RoundTrip(ctx context.Context, addr net.Addr, req kafka.Request) (kafka.Response, error) {
+	kind := "meta"
+	if _, ok := req.(*produce.Request); ok {
+		kind = "produce"
+	}
+	left := "-"
+	if dl, ok := ctx.Deadline(); ok {
+		ms := time.Until(dl).Milliseconds()
+		left = kvfmt.I((ms + 250) / 500 * 500) // nearest multiple of 500 ms
+	}
+	d.mu.Lock()
+	if !d.seen[kind] {
+		d.seen[kind] = true
+		d.left[kind] = left
+	}
+	d.mu.Unlock()
+	return d.inner.RoundTrip(ctx, addr, req)
+}
+
+func idMsg(id uint64) kafka.Message {
+	v := make([]byte, 8)
+	binary.BigEndian.PutUint64(v, id)
+	return kafka.Message{Value: v}
+}
+
+// genPDL: ReadTimeout / WriteTimeout (raw, ms) -> the time limit the produce
+// and the metadata round trips of one synchronous write run under. No sleeping.
+func genPDL(rt, wt int64) line {
+	ms := func(x int64) time.Duration { return time.Duration(x) * time.Millisecond }
+	rec := &dlRec{inner: fakert.New(fakert.NewHistory(), []int{1}), seen: map[string]bool{}, left: map[string]string{"meta": "?", "produce": "?"}}
+	w := &kafka.Writer{
+		Addr:         kafka.TCP("fake:9092"),
+		Topic:        "t0",
+		Transport:    rec,
+		ReadTimeout:  ms(rt),
+		WriteTimeout: ms(wt),
+		BatchSize:    1,
+		BatchTimeout: 10 * time.Millisecond,
+		MaxAttempts:  1,
+		RequiredAcks: kafka.RequireAll,
+		Balancer:     kafka.BalancerFunc(func(kafka.Message, ...int) int { return 0 }),
+	}
+	err := w.WriteMessages(context.Background(), idMsg(1))
+	w.Close()
+	feat := map[string]bool{}
+	_, _, _, _, _, _, ert, ewt := kafka.VerifWriterEffective(w)
+	switch {
+	case ert < ewt:
+		feat["rt<wt"] = true
+	case ert > ewt:
+		feat["rt>wt"] = true
+	default:
+		feat["rt=wt"] = true
+	}
+	if rt <= 0 {
+		feat["default-read"] = true
+	}
+	if wt <= 0 {
+		feat["default-write"] = true
+	}
+	rec.mu.Lock()
+	res := rec.left["produce"] + ":" + rec.left["meta"]
+	rec.mu.Unlock()
+	if err != nil {
+		res = "x." + sanitize(err.Error())
+	}
+	return line{"pdl", kvfmt.I(rt) + " " + kvfmt.I(wt), res, kvfmt.Set(feat)}
+}
+
+func genPDLs(r *rand.Rand) []line {
+	pairs := [][2]int64{{0, 0}, {500, 30000}, {30000, 500}, {0, 1500}, {1500, 0}}
+	pick := func() int64 {
+		switch r.Intn(6) {
+		case 0:
+			return 0
+		case 1:
+			return -1
+		}
+		return int64(500 * (1 + r.Intn(60)))
+	}
+	for i := 0; i < 60; i++ {
+		pairs = append(pairs, [2]int64{pick(), pick()})
+	}
+	lines := make([]line, len(pairs))
+	for i, pr := range pairs {
+		lines[i] = genPDL(pr[0], pr[1])
+	}
+	return lines
+}
+
+// runPTO: one message through the real Writer on a fake whose first answer is
+// held back ackDelay ms (the request is applied at once; the fake stops
+// waiting when the request's context ends). Result attempts:copies:res.
+func runPTO(rt, wt, ackDelay int64, async bool) line {
+	ms := func(x int64) time.Duration { return time.Duration(x) * time.Millisecond }
+	fake := fakert.New(fakert.NewHistory(), []int{1})
+	tp := fakert.TP{Topic: "t0", Partition: 0}
+	fake.SetScript(tp, []fakert.Reaction{{Kind: fakert.AppliedAcked, Delay: ms(ackDelay)}, {Kind: fakert.AppliedAcked}})
+	completed := make(chan string, 4)
+	w := &kafka.Writer{
+		Addr:            kafka.TCP("fake:9092"),
+		Topic:           "t0",
+		Transport:       fake,
+		ReadTimeout:     ms(rt),
+		WriteTimeout:    ms(wt),
+		BatchSize:       1,
+		BatchTimeout:    10 * time.Millisecond,
+		MaxAttempts:     3,
+		WriteBackoffMin: 5 * time.Millisecond,
+		WriteBackoffMax: 5 * time.Millisecond,
+		RequiredAcks:    kafka.RequireAll,
+		Async:           async,
+		Balancer:        kafka.BalancerFunc(func(kafka.Message, ...int) int { return 0 }),
+		Completion: func(msgs []kafka.Message, err error) {
+			res := "nil"
+			if err != nil {
+				res = "we." + hx(fakert.Classify(err))
+			}
+			select {
+			case completed <- res:
+			default:
+			}
+		},
+	}
+	msgs := []kafka.Message{idMsg(1)}
+	res := "hang"
+	done := make(chan string, 1)
+	go func() {
+		defer func() {
+			if r := recover(); r != nil {
+				done <- "other.panic:" + sanitize(fmt.Sprint(r))
+			}
+		}()
+		r := classifyResult(w.WriteMessages(context.Background(), msgs...), msgs)
+		if async && r == "nil" {
+			select {
+			case r = <-completed:
+			case <-time.After(watchdog):
+				r = "hang"
+			}
+		}
+		w.Close()
+		done <- r
+	}()
+	select {
+	case res = <-done:
+	case <-time.After(watchdog):
+	}
+	attempts := 0
+	for _, a := range fake.Journal() {
+		if a.Topic == tp.Topic && a.Partition == tp.Partition {
+			attempts++
+		}
+	}
+	copies := 0
+	if _, logs := fake.Logs(); len(logs) == 1 {
+		for _, id := range logs[0] {
+			if id == 1 {
+				copies++
+			}
+		}
+	}
+	feat := map[string]bool{}
+	if async {
+		feat["async"] = true
+	} else {
+		feat["sync"] = true
+	}
+	_, _, _, _, _, _, _, ewt := kafka.VerifWriterEffective(w)
+	if ms(ackDelay) < ewt {
+		feat["ack-within-write-timeout"] = true
+	} else {
+		feat["ack-after-write-timeout"] = true
+	}
+	return line{"pto", fmt.Sprintf("%s %s %s %s", kvfmt.I(rt), kvfmt.I(wt), kvfmt.I(ackDelay), kvfmt.Bool(async)),
+		fmt.Sprintf("%s:%s:%s", hx(attempts), hx(copies), res), kvfmt.Set(feat)}
+}
+
+// runPTOs runs the fixed timed cases concurrently.
+func runPTOs() []line {
+	type c struct {
+		rt, wt, delay int64
+		async         bool
+	}
+	var cases []c
+	for _, async := range []bool{false, true} {
+		for _, t := range [][3]int64{{150, 2000, 300}, {2000, 150, 300}, {0, 150, 300}, {150, 0, 300}} {
+			cases = append(cases, c{t[0], t[1], t[2], async})
+		}
+	}
+	lines := make([]line, len(cases))
+	var wg sync.WaitGroup
+	for i, cs := range cases {
+		wg.Add(1)
+		go func(i int, cs c) {
+			defer wg.Done()
+			lines[i] = runPTO(cs.rt, cs.wt, cs.delay, cs.async)
+		}(i, cs)
+	}
+	wg.Wait()
+	return lines
+}
+
+// ---------------------------------------------------------------------------
 // step level: (*kafka.Client).Produce response mapping (ops prr, pr)
 
 // prRT is a scripted RoundTripper answering every request with one produce
@@ -2053,6 +2269,8 @@ func main() {
 	for i := 0; i < 150; i++ {
 		lines = append(lines, genCfgd(r, false))
 	}
+	lines = append(lines, genPDLs(r)...)
+	lines = append(lines, runPTOs()...)
 
 	// e2e: all plans come from the one PRNG first, then run concurrently; the
 	// fixed boundary-code scenarios follow the generated ones.
